@@ -96,6 +96,11 @@ type MWStep struct {
 	// RetireFault (stmt): while the statement commits, the requests that retire its parent
 	// version fail (the commit is acknowledged all the same; the parent stays listed)
 	RetireFault bool `json:"retire_fault,omitempty"`
+	// VacFault (vacuum): the vacuum runs under a storage fault: "node-deletes" / "version-deletes"
+	// = every DELETE of a node / version object by the vacuuming writer fails, "merged-deletes" = only those of
+	// superseded versions under root/merged/ (the last phase of a vacuum); "from" = every
+	// mutating request from the Mask-th on fails
+	VacFault string `json:"vac_fault,omitempty"`
 }
 
 type MWCase struct {
@@ -202,7 +207,12 @@ func genMWCase(t *rapid.T, g mwGenCfg) MWCase {
 			default:
 				cut = -1
 			}
-			c.Steps = append(c.Steps, MWStep{Op: "vacuum", W: w, Cut: cut})
+			vs := MWStep{Op: "vacuum", W: w, Cut: cut}
+			if (g.mode == "c09" || g.mode == "c10") && rapid.IntRange(0, 3).Draw(t, "vacfault") == 0 {
+				vs.VacFault = rapid.SampledFrom([]string{"node-deletes", "version-deletes", "merged-deletes", "merged-deletes", "from"}).Draw(t, "vacfaultkind")
+				vs.Mask = rapid.IntRange(1, 8).Draw(t, "vacfaultat")
+			}
+			c.Steps = append(c.Steps, vs)
 		}
 	}
 	if g.wVacuum > 0 && rapid.Bool().Draw(t, "prefill") {
@@ -279,6 +289,7 @@ type mwRun struct {
 	snaps        []verSnap
 	snapAt       map[string]int
 	farVacuumed  bool
+	interrupted  map[string]bool // superseded versions present during a vacuum that ran under a fault
 	opsAdded     int
 	ro           *roState
 	closers      []func()
@@ -500,6 +511,9 @@ func (r *mwRun) observeAll(perm []int, where string) error {
 	anc := r.store.Clone()
 	n := 0
 	for _, name := range mergedVersions(anc, r.prefix) {
+		if r.interrupted != nil && r.interrupted[name] {
+			continue // may have lost nodes to a vacuum that was cut short (see reach)
+		}
 		b, _ := anc.Get(r.prefix + "root/merged/" + name)
 		anc.Put(r.prefix+"root/current/"+name, b)
 		n++
